@@ -8,6 +8,8 @@ CONSTANTS
   MaxRegs = 1
   CapIncC = 1
   MaxSteps = 3
+  Ops = {"Create", "Remove", "Exchange", "SetVal", "SetRel", "BatchExchange", "BatchSetRel", "BatchRemove", "Reset", "Register", "Unregister"}
+  EmitEvery = 1
 VIEW View
 CONSTRAINT Bound
 INVARIANTS Struct Flags CacheOK Refines IssuedOnce PanicAgrees CacheSelects
